@@ -69,6 +69,25 @@ func cmdRun(args []string) {
 			pm[k] = n
 		}
 	}
+	if os.Getenv("GOSYM_FORKSTATS") != "" {
+		engine.ForkStats = map[string]int{}
+		defer func() {
+			type kv struct {
+				k string
+				v int
+			}
+			var l []kv
+			for k, v := range engine.ForkStats {
+				l = append(l, kv{k, v})
+			}
+			sort.Slice(l, func(i, j int) bool { return l[i].v > l[j].v })
+			for i, x := range l {
+				if i < 40 {
+					fmt.Printf("  forks %6d %s\n", x.v, x.k)
+				}
+			}
+		}()
+	}
 	for _, h := range fs.Args() {
 		st, err := engine.Explore(p, h, engine.Opts{MaxSteps: *steps, MaxDepth: 400, MaxLoop: 100000, MapOrderSymbolic: *mapsym, WantReach: true, Params: pm}, *workers, *solver, 10000, *maxPaths)
 		if err != nil {
